@@ -82,7 +82,8 @@ def _strategy(tier, name):
             "threads": draw(st.sampled_from([False, 1, 2])),
             "field": draw(gen.vector_field_spec(3, kinds=fk, max_mag_exp=5)),
             "velocity": draw(gen.vector_field_spec(3, kinds=fk, max_mag_exp=3)),
-            "step": draw(gen.log_uniform(1e-4, 1e2)),
+            "step": draw(st.one_of(gen.log_uniform(1e-4, 1e2), gen.log_uniform(1e-4, 1e2), gen.log_uniform(1e-4, 1e2), gen.log_uniform(1e-4, 1e2),
+                                  st.just(0.0))),  # a zero step / zero viscosity is admissible: the kernel must return the field
             "poison": draw(st.booleans()),
             # memory layout of the field / velocity / work buffers handed to the time-step kernel
             "layout": draw(st.sampled_from(["contig", "contig", "zslab", "subblock", "fortran"])),
